@@ -136,6 +136,7 @@ func (s *vpHdrScn) isCp(h int) bool {
 // refValid: every rule of the property for header h on top of parent.
 func (s *vpHdrScn) refValid(parent []wire.BlockHeader, h *wire.BlockHeader) bool {
 	ok := vpPowOK(h)
+	ok = vpAnd(ok, h.PrevBlock == parent[len(parent)-1].BlockHash())
 	ok = vpAnd(ok, h.Bits == s.reqBits(parent))
 	ok = vpAnd(ok, h.Timestamp.Unix() > vpRefMTP(parent))
 	ok = vpAnd(ok, h.Timestamp.Unix() <= vpNowUnix+2*3600)
@@ -223,6 +224,8 @@ func (s *vpHdrScn) altHeader(parent []wire.BlockHeader, kind int, symTs bool) *w
 		h.Timestamp = time.Unix(vpRefMTP(parent)+1, 0)
 	case 6: // boundary, valid: exactly at the future limit
 		h.Timestamp = time.Unix(vpNowUnix+2*3600, 0)
+	case 8: // well-formed, but a sibling of the header before it in the message, not its child
+		h.PrevBlock = parent[len(parent)-2].BlockHash()
 	}
 	if kind == 0 {
 		switch s.pace {
@@ -316,10 +319,23 @@ func (s *vpHdrScn) oneMessage(tag string, o vpMsgOpt) bool {
 		}
 		bad := -1
 		kind := 0
-		if kinds > 0 {
-			kind = vpRange(tag+"kind", 0, kinds)
+		kmax := kinds
+		if vpParam("siblings", 0) == 1 {
+			kmax = kinds + 1 // one more defect: a header that is a sibling of its predecessor in the message
+		}
+		if kmax > 0 {
+			kind = vpRange(tag+"kind", 0, kmax)
+			if kind > kinds {
+				kind = 8
+			}
 			if kind != 0 {
 				bad = vpRange(tag+"kindAt", 0, L-1)
+			}
+			if kind == 8 {
+				if bad == 0 {
+					return false // needs a predecessor inside the message
+				}
+				vpReach("message-with-an-unconnected-header")
 			}
 			if kind == 1 && vpParam("freepow", 1) == 1 {
 				return false // covered by the free proof-of-work predicate
@@ -605,11 +621,12 @@ func VerifH_C01_twoMessages() {
 	if s == nil {
 		return
 	}
-	if !s.oneMessage("m1:", vpMsgOpt{maxNew: vpParam("maxnew2", 2), kinds: 0, nearTip: true}) {
+	if !s.oneMessage("m1:", vpMsgOpt{maxNew: vpParam("maxnew2", 2), kinds: 0, nearTip: vpParam("neartip1", 1) == 1,
+		forksOnly: vpParam("forksonly1", 0) == 1}) {
 		return
 	}
 	s.oneMessage("m2:", vpMsgOpt{maxNew: vpParam("maxnew2", 2), kinds: vpParam("kinds2", 0), symTs: vpParam("symts2", 1) == 1,
-		knownPrefix: vpParam("knownprefix2", 0) == 1})
+		knownPrefix: vpParam("knownprefix2", 0) == 1, forksOnly: vpParam("forksonly2", 0) == 1})
 }
 
 // invMessage: an inventory message announcing one block (the tip, the
